@@ -81,11 +81,12 @@ CLAIMED = {
         'operations; instantiated with mathcomp matrices they satisfy X(t)Y(t) Cauchy product, A(t) inv(A)(t) = I = inv(A)(t) A(t) (over any '
         'ring) and A(t) X(t) = B(t) modulo t^D; the executable list-matrix instance refines the mathcomp instance (morphism lemmas and '
         'transfer), so the same identities hold for the terms vm_compute runs; det via LU (piv2det * prod diag U, the executable luU and '
-        'detU kernels end to end) is the Leibniz determinant of the polynomial matrix modulo X^D (C07_detU_luU_is_det). On every run: the implementation against the Coq model '
+        'detU kernels end to end) is the Leibniz determinant of the polynomial matrix modulo X^D (C07_detU_luU_is_det), and logdet on the same '
+        'LU factors satisfies det * logdet\' = det\' modulo t^(D-1) in characteristic 0 (C07_logdetU_luU_spec). On every run: the implementation against the Coq model '
         '(dot, inv, solve in three operand mixes, base inverses from NumPy as the implementation takes them) and exact-rational predicates on '
         'the implementation output: numpy.dot/outer on exact series objects for every rank combination and operand mix, residuals of '
         'A inv(A) = I and A X = B, Leibniz determinant, det * logdet\' = det\', trace; expm at orders 0 and 1 against SciPy.',
-   note=NOTE_COMMON + 'logdet/expm have no theorem (validated per case against exact predicates); closeness of the Pade approximant to expm is numerical analysis.',
+   note=NOTE_COMMON + 'expm has no theorem (validated per case against exact predicates); closeness of the Pade approximant to expm is numerical analysis.',
    technique='Coq proof over abstract rings + refinement of executable list matrices to mathcomp matrices + correspondence and exact residual predicates',
    design='4/C07'),
  'C08': dict(
@@ -107,7 +108,7 @@ CLAIMED = {
         'identity of C15. On every run: seeds and extraction formulas against the Coq model exactly; integer polynomial programs at integer '
         'points against analytic derivatives from exact multivariate polynomial arithmetic (all drivers incl. tensors d<=3/4, tolerance 0 '
         'where float64 is exact, also with an integer-dtype seed); smooth programs: mutual consistency of all drivers.',
-   note=NOTE_COMMON + 'That coefficient d along x+ts is the d-th directional derivative/d! is C01/C12 (chain rule, not re-proved here); tensor identity bounded N<=4,d<=5.',
+   note=NOTE_COMMON + 'That coefficient d along x+ts is the d-th directional derivative/d! is C01/C12 (chain rule, not re-proved here); the interpolation identity behind init_tensor/extract_tensor is proved for all N, d (C15).',
    technique='Coq proof (index arithmetic of seeds/extraction for all N) + exact polynomial oracle + correspondence',
    design='4/C09'),
  'C10': dict(
@@ -161,32 +162,34 @@ CLAIMED = {
  'C15': dict(
    text='Theorems (all N>=1, all d, closed under the global context): the multi-index enumeration contains every multi-index of degree d '
         'exactly once. Bounded theorem by kernel reflection over exact rationals: the interpolation identity sum_j Gamma[i,j] ray_j^a = '
-        'delta(i,a) for 1<=N<=4, 1<=d<=5 (bound in the statement; the unbounded identity is the cited Griewank-Utke-Walther theorem). '
+        'delta(i,a) for EVERY N >= 1 and d >= 1 over every field of characteristic 0, including termination of the gamma loop within its fuel '
+        '(C15_interpolation_identity; the Griewank-Utke-Walther identity re-proved from finite differences of monomials, the multi-index '
+        'Vandermonde convolution, Stirling numbers and an odometer argument); the earlier reflection proof for N<=4, d<=5 is kept. '
         'The model follows exact_interpolation.py loop by loop and is compared with it on every run: multi-index lists, positions, '
         'increment, generalized binomials, Gamma and rays; the identity is re-evaluated with Fractions on the implementation output.',
-   note=NOTE_COMMON + 'Unbounded Gamma identity not proved (bounded N<=4,d<=5).',
+   note=NOTE_COMMON + 'The interpolation identity is proved for the seed matrix S = identity (rays = multi-indices), the default the drivers use; a user-supplied S is covered by the per-case predicate only.',
    technique='Coq proof (induction; bounded reflection) + model/implementation correspondence by vm_compute',
    design='4/C15'),
  'C16': dict(
    text='Theorems (Coq reals + Coquelicot; all n, all points of the declared domain): for exp, exp2, expm1, log, log2, log10, log1p, sqrt, '
-        'square, negative, reciprocal, sin, cos, sinh, cosh, arctanh the closed form of order n+1 is the derivative of the closed form of '
+        'square, negative, reciprocal, sin, cos, sinh, cosh, arctanh, erf, erfi (erf defined as the integral; every real x incl. 0) the closed form of order n+1 is the derivative of the closed form of '
         'order n and order 0 is the function, hence the closed form IS the n-th derivative (nth_derivative_of_chain). On every run the '
         'real-valued model is evaluated inside Coq by certified interval arithmetic at the points where the implementation is run '
-        '(|model - implementation| <= 1e-9 relative proved per case), and every exported function (also erf, erfi, arcsin, arccos, arctan, '
+        '(|model - implementation| <= 1e-9 relative proved per case), and every exported function (also arcsin, arccos, arctan, '
         'arcsinh, arccosh, gammaln, psi, polygamma, hyperu, piecewise ones) is compared with mpmath numerical differentiation at 50 digits.',
    note='Axioms: ClassicalDedekindReals.sig_forall_dec, sig_not_dec, FunctionalExtensionality.functional_extensionality_dep, Classical_Prop.classic (standard library reals / Coquelicot). '
-        'Functions without a Coq model (erf family, inverse trigonometric/hyperbolic, gamma family, hyperu) are decided against mpmath only; tan/tanh need mpmath inside the repository interpreter and are outside the property list.',
+        'Functions without a Coq model (inverse trigonometric/hyperbolic, gamma family, hyperu) are decided against mpmath only; tan/tanh need mpmath inside the repository interpreter and are outside the property list.',
    technique='Coq proof over the reals (Coquelicot is_derive) + certified interval evaluation of the model per case + mpmath oracle',
    design='4/C16'),
  'C17': dict(
    text='Theorems (all N, all shapes/values unless a bound is stated): applying the row interchanges of a pivot vector = indexing with '
         'piv2swap; piv2swap is a permutation; piv2mat^T A is A after the interchanges; det(piv2mat piv) (mathcomp determinant) = piv2det piv; '
         'symvec(vecsym v) = v and vecsym(symvec A) = A resp. (A+A^T)/2 for all three storage conventions; shift by s then -s preserves the '
-        'retained coefficients; base+directions <-> polynomial axis permutations are mutually inverse (bounded: rank<=3, extents<=3, D,P<=3, '
-        'by kernel reflection). On every run: every pivot vector for N<=4 (5 thorough) realised through scipy.linalg.lu_factor with '
+        'retained coefficients; base+directions <-> polynomial axis permutations are mutually inverse for EVERY D, P and shape (C17_base_dirs_roundtrip), '
+        'as an instance of: transposition by any axis permutation followed by the inverse permutation is the identity (C17_transpose_inverse). On every run: every pivot vector for N<=4 (5 thorough) realised through scipy.linalg.lu_factor with '
         'P L U = A and det checks, all helpers against the Coq model exactly, bit-wise round trips.',
-   note=NOTE_COMMON + 'LAPACK getrf contract trusted and checked per case; the axis-permutation round trip is a bounded theorem.',
-   technique='Coq proof (mathcomp permutations/determinant, list index arithmetic, bounded reflection) + exact correspondence',
+   note=NOTE_COMMON + 'LAPACK getrf contract trusted and checked per case; nested containers (as_utpm, ndarray2utpm) are decided by the element-wise predicate only.',
+   technique='Coq proof (mathcomp permutations/determinant, list index arithmetic) + exact correspondence',
    design='4/C17'),
 }
 PENDING_REASON = 'check not built yet in this revision (see DESIGN.md section 4 for the plan); nothing is claimed for it'
